@@ -80,17 +80,18 @@ type seg struct {
 }
 
 type op struct {
-	Kind  string `json:"kind"` // write | rebuild | restart | query | sweep
-	Segs  []seg  `json:"segs,omitempty"`
-	Chunk int    `json:"chunk,omitempty"` // rebuild: 1-based chunk number forced through the asynchronous rebuilder (0 = every chunk, synchronously)
-	Crash bool   `json:"crash,omitempty"` // restart: on an image of the directory taken while the server runs (cindex.dat of the last clean stop)
-	Dead  bool   `json:"dead,omitempty"`  // rebuild: query while the other chunks' indexes are missing (SPEC only), then heal
-	Lo    *int64 `json:"lo,omitempty"`
-	Hi    *int64 `json:"hi,omitempty"`
-	Page  int    `json:"page,omitempty"`
-	RPC   bool   `json:"rpc,omitempty"`
-	N     int    `json:"n,omitempty"` // sweep: number of ranges
-	Seed  int64  `json:"seed,omitempty"`
+	Kind   string `json:"kind"` // write | rebuild | restart | query | sweep
+	Segs   []seg  `json:"segs,omitempty"`
+	Chunk  int    `json:"chunk,omitempty"`   // rebuild: 1-based chunk number forced through the asynchronous rebuilder (0 = every chunk, synchronously)
+	Crash  bool   `json:"crash,omitempty"`   // restart: on an image of the directory taken while the server runs (cindex.dat of the last clean stop)
+	NoHeal bool   `json:"no_heal,omitempty"` // restart: no SyncChunks + rebuild afterwards — the index is what the queries of the history make of it
+	Dead   bool   `json:"dead,omitempty"`    // rebuild: query while the other chunks' indexes are missing (SPEC only), then heal
+	Lo     *int64 `json:"lo,omitempty"`
+	Hi     *int64 `json:"hi,omitempty"`
+	Page   int    `json:"page,omitempty"`
+	RPC    bool   `json:"rpc,omitempty"`
+	N      int    `json:"n,omitempty"` // sweep: number of ranges
+	Seed   int64  `json:"seed,omitempty"`
 }
 
 type history struct {
@@ -532,8 +533,10 @@ func (r *sysRun) doRestart(o op, rng *vh.Rng) bool {
 	}
 	cks := r.chunks()
 	srv.TsIdx.SyncChunks(r.ctx, r.src, cks)
-	for _, c := range cks {
-		srv.TsIdx.RebuildIndex(r.ctx, r.src, c, false)
+	if !o.NoHeal {
+		for _, c := range cks {
+			srv.TsIdx.RebuildIndex(r.ctx, r.src, c, false)
+		}
 	}
 	if !r.waitIdle() {
 		return false
@@ -546,6 +549,17 @@ func (r *sysRun) doRestart(o op, rng *vh.Rng) bool {
 	}
 	r.ask("rw.restart "+how, func(string) {})
 	r.ask("rw.sync", func(string) {})
+	if o.NoHeal {
+		// only hulls are compared: which chunks get a tree depends on the look-ups that follow
+		hull := r.implHull()
+		in := r.inputWith(nil)
+		r.ask("rw.hull", func(ans string) {
+			if ans != hull {
+				res.Mismatch(vh.Mismatch{Section: r.section, Function: "chunk hulls (GetRecordsInfo) after restart without rebuilds", Input: in, Impl: short(hull), Model: short(ans)})
+			}
+		})
+		return true
+	}
 	r.ask("rw.heal", func(string) {})
 	r.compareIndexState("restart ("+how+")", rng)
 	return true
